@@ -103,6 +103,17 @@ def run(db, tier):
             continue
         ccalls = [tt.get("f", "") for _, tt in cl.calls()]
         if any(c.endswith("BTreeMap::<K, V, A>::contains_key") for c in ccalls):
+            # polarity: the closure keeps a register iff it is NOT in the explicit-use map
+            dcl = flow.Defs(cl)
+            ret_srcs = dcl.sources(0) if hasattr(dcl, "sources") else set()
+            negs = [st for b_ in cl.blocks for st in b_["s"] if st["r"] == "unop" and st.get("op") == "Not"]
+            neg_of_contains = any(flow.has_call_source(dcl._op_sources(st["o"], 0, set(), True), "contains_key") for st in negs)
+            ret_is_neg = any(place_local(st["d"]) == 0 or any(place_local(st2["d"]) == 0 and op_local(st2.get("o", {})) == place_local(st["d"])
+                                                               for b2 in cl.blocks for st2 in b2["s"] if st2["r"] == "use")
+                             for st in negs)
+            rep.check(neg_of_contains and ret_is_neg and len(negs) == 1, "R-POOL", "pool|retain-explicit polarity", "%s:%d" % (cl.file, cl.line),
+                      "retain keeps a register iff !explicitly_used_regs.contains_key(reg)",
+                      "the retain over the scratch pool does not keep exactly the registers that are NOT explicitly used (negations of contains_key: %d)" % len(negs))
             retain_explicit.append(bi)
         elif any(c["op"] == "Ne" for c in flow.comparisons(cl)):
             retain_param.append(bi)
